@@ -117,6 +117,20 @@ CLAIMED["C17"] = {
     "design": "5 C17",
 }
 
+CLAIMED["C18"] = {
+    "text": "JsonSpec.tla transcribes JSONParser (parse_next/array/object/string/number/bool/null with the offset arithmetic of the code, "
+            "including the --offset of parse_number and the for-loop exits), dump/json_escape and the key handling, over (text, offset) "
+            "with reads that raise when out of range; TLC checks RoundTrip on a family of value trees and Idempotent, ParsesOrThrows, "
+            "OffsetSafe on every text of length <= 4 (5 thorough) over 14 characters. Every text, with the transcription's verdict "
+            "(value or error), and every dumped tree is then sent through the real from_json / to_json / from_json in the ASan build and "
+            "compared structurally (floating values numerically within 1e-6), together with nesting ramps up to 10^6 and seeded byte-level "
+            "mutations of JSON documents for the 'never crashes' clause.",
+    "note": "Reads past the input and stack exhaustion are observed by ASan / the child's exit status on replayed inputs only; float "
+            "rounding is compared natively, not by TLC; \\uXXXX escapes are kept verbatim by the parser (modelled as such).",
+    "technique": "TLA+ transcription of the cursor parser checked by TLC + exhaustive replay of TLC-evaluated texts under ASan",
+    "design": "5 C18",
+}
+
 PENDING_REASON = "check not built yet in this session; planned (see DESIGN.md section 8)"
 
 ALL = [f"C{i:02d}" for i in range(1, 21)]
